@@ -1,0 +1,20 @@
+//go:build verif
+
+// Verification hook (package-internal access for /verif harness engine `ring`, property C48).
+// Compiled only with `-tags verif`; no effect on normal builds.
+
+package ringbuf
+
+// VerifConcSnapshot returns the ring's bookkeeping fields and a copy of the entries slice,
+// read under the ring's mutex.
+func VerifConcSnapshot(r *Ring) (writeIndex, readIndex, writable, readable int, closed bool,
+	entries []any) {
+
+	r.mutex.Lock()
+	defer r.mutex.Unlock()
+	entries = make([]any, len(r.entries))
+	for i, e := range r.entries {
+		entries[i] = e
+	}
+	return r.writeIndex, r.readIndex, r.writable, r.readable, r.closed, entries
+}
